@@ -124,10 +124,30 @@ def check(index, ctx):
         ctx.require(set(counts) <= {0, 1} and 1 in counts, "R3", f"{fn.short}: one .grad write per key", f"writes per path through one iteration: {counts}",
                     f"{counts} .grad writes on a single pass through the loop body", fn.loc())
         for w in wnodes:
-            guards = cfg.guards_of(w)
-            gtxt = [(norm_text(t.ast.test if hasattr(t.ast, 'test') else t.ast), lbl) for t, lbl in guards if t.kind == "test"]
-            exists_true = any("grad" in t and ("is not None" in t) and lbl == "True" for t, lbl in gtxt) or any("grad" in t and "is None" in t and "is not None" not in t and lbl == "False" for t, lbl in gtxt)
-            exists_false = any("grad" in t and ("is not None" in t) and lbl == "False" for t, lbl in gtxt) or any("grad" in t and "is None" in t and "is not None" not in t and lbl == "True" for t, lbl in gtxt)
+            from ..guards import cfg_guards, implies
+
+            tgt = w.ast.target if isinstance(w.ast, ast.AugAssign) else w.ast.targets[0]
+            owner = norm_text(tgt.value) if isinstance(tgt, ast.Attribute) else None
+
+            def classify(t, owner=owner):
+                """E = '<owner>.grad exists (is a tensor)', H = 'hasattr(<owner>, "grad")'."""
+                if isinstance(t, ast.Compare) and len(t.ops) == 1 and isinstance(t.ops[0], (ast.Is, ast.IsNot)):
+                    a, b = t.left, t.comparators[0]
+                    if isinstance(a, ast.Constant) and a.value is None:
+                        a, b = b, a
+                    if isinstance(b, ast.Constant) and b.value is None:
+                        txt = norm_text(a)
+                        if txt == f"{owner}.grad" or txt.replace('"', "'") == f"getattr({owner}, 'grad', None)":
+                            return ("E", isinstance(t.ops[0], ast.IsNot))
+                if isinstance(t, ast.Call) and isinstance(t.func, ast.Name) and t.func.id == "hasattr" and len(t.args) == 2 and norm_text(t.args[0]) == owner \
+                        and isinstance(t.args[1], ast.Constant) and t.args[1].value == "grad":
+                    return ("H", True)
+                return None
+
+            domain = lambda a: (not a.get("E", False)) or a.get("H", True)  # a .grad that exists is an attribute
+            gs = cfg_guards(cfg, w)
+            exists_true = implies(gs, classify, "E", True, domain)
+            exists_false = implies(gs, classify, "E", False, domain)
             if isinstance(w.ast, ast.AugAssign):
                 ctx.require(exists_true and isinstance(w.ast.op, ast.Add), "R3", f"{fn.short}: {norm_text(w.ast)}", "in-place add where a .grad exists",
                             "augmented write is not an add guarded by `.grad is not None`", fn.loc(w.ast))
